@@ -256,3 +256,29 @@ def chain_numbers(ch):
         if not out or out[-1] != num:
             out.append(num)
     return out
+
+
+def insulin_pairs(labels='BACD', spacing=60.0):
+    """Two copies of the insulin pair of tier-1/3i40 (21- and 30-residue chains joined by disulfide bridges: ONE molecule made of
+    two chains, without any -merge).  labels: chain labels in file order (short, long, short, long); 'BACD' labels the first copy
+    against the alphabet (SortMoleculeAtoms orders by chain) and the second copy along it: same chains, different written order."""
+    path = os.path.join(TESTS, 'tier-1/3i40', '3i40.pdb')
+    chains = {'A': [], 'B': []}
+    for ln in open(path).read().splitlines():
+        if ln.startswith('ATOM') and ln[21] in chains and ln[16] in ' A':
+            chains[ln[21]].append(ln.ljust(80))
+    out = ['CRYST1  900.000  900.000  900.000  90.00  90.00  90.00 P 1           1']
+    serial = 1
+    k = 0
+    for copy in range(2):
+        for orig in 'AB':
+            for ln in chains[orig]:
+                x = float(ln[30:38]) + copy * spacing
+                out.append('%s%5d%s %s%s%8.3f%s' % (ln[:6], serial, ln[11:16], ln[17:21] + labels[k], ln[22:30], x, ln[38:].rstrip()))
+                serial += 1
+            out.append('TER')
+            serial += 1
+            k += 1
+    out.append('END')
+    return '\n'.join(out) + '\n'
+
